@@ -64,6 +64,16 @@ def mdft_rules(run, db):
                 raise AnalysisError('%s: expected one path per shift context, got %d' % (f.qual, len(res)))
             p = res[0]
             v = p.value
+            # a scalar applied to the product (a normalisation moved out of the matrices) is part of the normalisation
+            outer = Rat(R.const(1))
+            while isinstance(v, Shaped) and not isinstance(v, Prod2) and v.origin is not None and v.origin[0] == 'scale' and v.origin[1] in ('Mult', 'Div'):
+                sc = dom.rat(v.origin[3])
+                if sc is None:
+                    raise AnalysisError('%s: the product is scaled by something that is not followed (%r)' % (f.qual, v.origin[3]))
+                if v.origin[1] == 'Div' and v.origin[4]:
+                    raise AnalysisError('%s: a scalar is divided by the product' % f.qual)
+                outer = outer * sc if v.origin[1] == 'Mult' else outer / sc
+                v = v.origin[2]
             if not (isinstance(v, Prod2) and isinstance(v.left, Mat) and isinstance(v.right, Mat) and isinstance(v.arr, Shaped) and v.arr.label == 'ary'):
                 raise AnalysisError('%s: result is not Eout @ ary @ Ein on path %s: %r' % (f.qual, p.conds, v))
             n0, n1, M0, M1 = [dom.length(x) for x in ('n0', 'n1', 'M0', 'M1')]
@@ -81,7 +91,7 @@ def mdft_rules(run, db):
                     run.check(ok, 'C01.kernel', f.qual, '%s: %s' % (meth, label(text)), text + ' [%s]' % ('shift' if taken else 'no shift'),
                               text + ' (%s)' % ('shift requested' if taken else 'no shift'), f.loc())
             if all(x is not None for x in facs):
-                prod = facs[0] * facs[1]
+                prod = facs[0] * facs[1] * outer
                 want = 1 / (K.R_(dom, n0) * Rat(R.atom('Q0')) * K.R_(dom, n1) * Rat(R.atom('Q1')))
                 run.check(prod * prod == want and K.is_real(dom, prod), 'C01.norm', f.qual, '%s normalisation' % meth,
                           '(normx normy)^2 == 1/(n0 Q0 n1 Q1)', 'normalisation^2 = %s, expected %s' % ((prod * prod).key(), want.key()), f.loc())
